@@ -136,6 +136,14 @@ struct IWorld {
     virtual const std::uintptr_t* lookup_vptr(type_id id) = 0; // through Policy::dynamic_vptr
     virtual size_t catalog_classes() = 0;
     virtual size_t catalog_methods() = 0;
+    // the catalogs as enumerated by the library's own lists (C18)
+    virtual std::vector<const void*> catalog_class_records(bool const_iter) = 0;
+    virtual std::vector<const void*> catalog_method_records(bool const_iter) = 0;
+    virtual std::vector<const void*> catalog_definition_records(const Registry& r, int m, bool const_iter, size_t& size, bool& empty) = 0;
+    virtual const void* class_record_address(int rec) = 0;
+    virtual const void* definition_record_address(const Registry& r, int m, int d) = 0;
+    virtual bool catalogs_empty(bool& classes_empty, bool& methods_empty) = 0;
+    virtual void clear_catalog(int which, const Registry& r, int m) = 0; // 0 classes, 1 methods, 2 definitions of m
     virtual std::string state_digest() = 0; // everything observable, for isolation checks
 
     // calls
